@@ -54,7 +54,10 @@ def objname(e):
     f = norm(e.get('field') or '')
     if f:
         return f
-    return e.get('recv') or ''
+    r = e.get('recv') or ''
+    if r.startswith('param:') and ('awaiter' in (e.get('recv_type') or '')):
+        return 'param:chain'          # any parameter of type awaiter_collector& : the chain handed in by the caller
+    return r
 
 
 # role table: (function pattern, operation, object) -> (role, reason)
@@ -118,10 +121,39 @@ def role_ok(role, e):
     return True
 
 
+def role_from_callers(db, key, depth=3, _seen=None):
+    """an operation found in a function the table does not know: when that function is a helper whose callers (transitively) are all
+    tabled for the same operation on the same object with one and the same role, the operation inherits that role"""
+    from .rules import callers_of
+    fn, op, obj = key
+    _seen = _seen or set()
+    if fn in _seen or depth < 0:
+        return None
+    _seen.add(fn)
+    cs = callers_of(db, fn)
+    if not cs:
+        return None
+    roles = set()
+    for c in cs:
+        ent = ROLES.get((c, op, obj))
+        if ent is None and op.startswith('compare_exchange'):
+            ent = ROLES.get((c, 'compare_exchange_weak' if op.endswith('strong') else 'compare_exchange_strong', obj))
+        if ent is None:
+            ent = role_from_callers(db, (c, op, obj), depth - 1, _seen)
+        if ent is None:
+            return None
+        roles.add(ent[0])
+    if len(roles) == 1:
+        r = roles.pop()
+        return (r, 'inherited from the tabled callers of helper %s' % fn)
+    return None
+
+
 def sites(db, only_functions=None, only_objects=None):
     """all atomic operation sites in library bodies: yields (fn, event)"""
+    from .rules import only_reached_from
     for f in db.all_instances():
-        if only_functions is not None and f['nname'] not in only_functions:
+        if only_functions is not None and f['nname'] not in only_functions and not only_reached_from(db, f['nname'], set(only_functions)):
             continue
         for e in f.events():
             if is_atomic_call(e):
@@ -139,6 +171,8 @@ def check_roles(ctx, db, rid, only_functions=None, only_objects=None, floor=1):
     for f, e in sites(db, only_functions, only_objects):
         key = (f['nname'], opname(e), objname(e))
         ent = ROLES.get(key)
+        if ent is None:
+            ent = role_from_callers(db, key)
         if ent is None and key[2] in ANY_OBJECTS:
             ent = ('any', ANY_OBJECTS[key[2]])
         if ent is None and (rel(success_order(e)) and acq(success_order(e))):
